@@ -3,6 +3,7 @@
 package main
 
 import (
+	"io"
 	"bytes"
 	"flag"
 	"fmt"
@@ -170,7 +171,13 @@ func hexCase(stream string, rs []rune, s string) {
 	if err == nil {
 		impl = "ok " + hx.B(got)
 	}
-	sink.Add(stream, "H PARSE "+runesLine(rs), impl, len(rs) > 0)
+	if stream != "hex-longline" {
+		// (the extracted model works on unary positions and needs minutes for a 64 KiB line: those cases are judged
+		// by the independent reading below only)
+		sink.Add(stream, "H PARSE "+runesLine(rs), impl, len(rs) > 0)
+	} else {
+		sink.Count("stream:hex-longline(oracle only)")
+	}
 	sink.OracleN++
 	if err != nil && strings.HasPrefix(err.Error(), "PANIC") {
 		fail("ParseAnnotatedHex panicked", runesLine(rs), "value or error", err.Error(), "hex-panic")
@@ -230,6 +237,13 @@ func streamHex(r *hx.Rng) {
 	}
 	for _, s := range []string{"", "\n", ";", ";\n", " ", "0", "0\n0", "00", "0 0", "0;0\n", "zz", "0g", "\n\n0a\n\n", "0A;\n;0B\n0C"} {
 		hexCase("hex-edge", []rune(s), s)
+	}
+	// very long lines (no line-length limit is documented): a data line of more than 64 KiB, a short data line with a
+	// comment of more than 64 KiB, a long line in the middle of short ones, and garbage after a long line
+	long := strings.Repeat("a5 ", 22000)
+	for _, s := range []string{long, "01 02\n" + long + "\n03", "0a ; " + strings.Repeat("c", 70000) + "\n0b", strings.Repeat("7f", 33000) + "\nzz",
+		strings.Repeat("7f", 33000) + "\n0", long + ";x\n" + long} {
+		hexCase("hex-longline", []rune(s), s)
 	}
 }
 
@@ -608,6 +622,11 @@ func streamDump(r *hx.Rng) {
 			if strings.HasPrefix(status, "panic") || strings.Contains(status, "unparsable") {
 				fail("protodump crashed or printed garbage on malformed input", fmt.Sprintf("input=%s expand=%s strings=%s", hx.B(m), pathsArg(exp), pathsArg(str)), "error or dump", status+" raw="+strconv.Quote(raw), "dump-panic")
 			}
+			// an input that ends in the middle of a top-level field (key or value cut short) is malformed: an error
+			if status == "ok" && topLevelTruncated(m) {
+				fail("protodump reported success on an input that ends in the middle of a field", fmt.Sprintf("input=%s expand=%s strings=%s", hx.B(m), pathsArg(exp), pathsArg(str)),
+					"error", status+" raw="+strconv.Quote(raw), "dump-accept-truncated")
+			}
 			// whatever it printed before stopping must be a prefix-consistent reading: top-level records
 			// equal what protowire finds, field by field, until the first malformed field
 			if !strings.Contains(status, "unparsable") {
@@ -615,6 +634,22 @@ func streamDump(r *hx.Rng) {
 			}
 		}
 	}
+}
+
+// the input ends inside a top-level key or value (per protowire)
+func topLevelTruncated(p []byte) bool {
+	for len(p) > 0 {
+		num, typ, n := protowire.ConsumeTag(p)
+		if n < 0 {
+			return protowire.ParseError(n) == io.ErrUnexpectedEOF
+		}
+		k := protowire.ConsumeFieldValue(num, typ, p[n:])
+		if k < 0 {
+			return protowire.ParseError(k) == io.ErrUnexpectedEOF
+		}
+		p = p[n+k:]
+	}
+	return false
 }
 
 // the top-level (indent 0) records, in order, must agree with protowire on number, wire type, value
